@@ -1,6 +1,6 @@
 INIT GInit
 NEXT GNext
-CONSTANT Big = TRUE
+CONSTANT Big = TRUE Wide = FALSE
 VIEW View
 ACTION_CONSTRAINT Emit
 CHECK_DEADLOCK FALSE
